@@ -5,11 +5,16 @@
    list is exactly the build (refinement); within one task no write follows a commit, and rows
    are committed only for SUCCESS (all products exist) and PERSISTENCE (all nodes exist); the
    "unchanged" verdict is sound in EVERY world, in particular in every crashed one; rows of
-   other tasks and files outside the footprint are untouched.  The end-to-end convergence
-   statement needs the history invariant of C02 and is checked by the crash-injection
-   correspondence (every effect boundary of generated builds); see DESIGN. *)
+   other tasks and files outside the footprint are untouched; and, with the history invariant of
+   C02: in the world a kill leaves after ANY prefix of the effects of a build that started from
+   any world reached by edits and complete builds, a task is reported unchanged only if its
+   products are what its function writes from the dependencies as they are
+   (C05_crash_unchanged_means_current).  Convergence of the recovery build and "tasks reported
+   before the kill are not executed again" are checked by the crash-injection correspondence
+   (every effect boundary of generated builds); see DESIGN. *)
 From Verif Require Import Base.Prelude Base.Graph Model.Sorter Model.Expr Model.Engine Model.Crash.
 From Verif Require Import Proofs.EngineTask Proofs.CrashProofs.
+From Verif Require Import Proofs.EngineHistory Proofs.CrashSafety.
 
 (* applying all effects of a build gives the world the build returns; a process killed after
    at least that many effects leaves exactly that world *)
@@ -58,9 +63,31 @@ Proof.
   - split; auto. intros t' k' H. apply dblookup_dbupd_neq. exact H.
 Qed.
 
+(* the safety half of the property, for every crash point *)
+Theorem C05_crash_world_safe : forall is_word lower body defn c ts E desel faults pref k w,
+  hreach is_word lower body defn w -> project_ok defn ts ->
+  create_dag is_word lower c ts = DagOk E desel -> NoDup (task_ids ts) ->
+  (forall t, In t ts -> wf_task t) -> (forall t, In t ts -> m_persist t = false) ->
+  (forall i, good_fault (faults i)) ->
+  safe body ts E (crash_world is_word lower body k c ts faults pref w).
+Proof. exact crash_after_history_safe. Qed.
+
+Theorem C05_crash_unchanged_means_current :
+  forall is_word lower body c ts E desel faults pref,
+  create_dag is_word lower c ts = DagOk E desel -> NoDup (task_ids ts) ->
+  (forall t, In t ts -> wf_task t) -> (forall t, In t ts -> m_persist t = false) ->
+  (forall i, good_fault (faults i)) ->
+  forall k w c' dyn desel' t f,
+  all_sc body ts w -> In t ts ->
+  r_out (run_task body c' E dyn desel' (crash_world is_word lower body k c ts faults pref w) t f) = OSkipUnchanged ->
+  current body (crash_world is_word lower body k c ts faults pref w) t.
+Proof. exact crash_unchanged_means_current. Qed.
+
 Print Assumptions C05_effects_refine_build.
 Print Assumptions C05_task_effects_refine.
 Print Assumptions C05_crash_world_complete.
 Print Assumptions C05_commits_follow_writes.
 Print Assumptions C05_unchanged_sound_in_every_world.
 Print Assumptions C05_effect_footprint.
+Print Assumptions C05_crash_world_safe.
+Print Assumptions C05_crash_unchanged_means_current.
